@@ -131,6 +131,18 @@ pub fn check(cx: &Cx, rep: &mut Report) {
                 rep.fail(P, "R7", "stopped_by_unpolled_consume", format!("actor tag {} began stopped() at #{t_in}: after consume() was called at #{} but before the returned future was first polled ({}), and nothing else had stopped it", af.tag, p.b, if first_poll == u64::MAX { "never".to_string() } else { format!("#{first_poll}") }), vec![p.b, t_in]);
             }
         }
+        // R1 (cont.): until the actor's task has ended its mailbox takes a (redundant) stop request, so a consume that
+        // begins before that moment is not refused at its `stop()` - also while the actor is inside a slow `stopped()`
+        if let (Some((end, _, _)), false) = (af.task_end, cx.mt) {
+            for o in ix.ops.iter().filter(|o| o.tag == af.tag && matches!(o.op, OpK::Consume | OpK::ConsumeSync) && o.executed() && o.b < end) {
+                rep.premise("C17.R1.consume_not_refused_before_termination");
+                if let Some(Res::Err(e)) = &o.res {
+                    if *e != "already_stopped" {
+                        rep.fail(P, "R1", format!("consume_refused_before_termination;err={e}"), format!("{:?} c{}#{} begun at #{} was refused with {e} although the actor's task only ended at #{end}", o.op, o.c, o.i, o.b), vec![o.b, end]);
+                    }
+                }
+            }
+        }
         // R3: at most one Some
         rep.premise("C17.R3.at_most_once");
         if somes > 1 {
